@@ -114,6 +114,7 @@ func init() {
 			{"iter-progress", "iterator loops are left when the advancing call fails without progress", ruleIterProgress},
 			{"grid-bound", "index and slice bounds on t.Grid.Cols follow from the dominating comparisons (difference-bound proof per use)", ruleGridBound},
 			{"marshal-attr-unique", "hand-written marshallers add no attribute that the encoded struct's tags emit as well (a re-saved main part stays well-formed)", ruleMarshalAttrUnique},
+			{"first-elem", "constant-index accesses to slices of received model objects are preceded by a length test or a filling store on every path (forward must-analysis per access path)", ruleFirstElem},
 			{"part-prov", "the regenerated main part of a re-saved document comes out of the escaping marshaller (no text spliced into the marshalled bytes)", filtered(rulePartProv, "word/document.xml", "serializeDocument")},
 		},
 		Assumptions: append([]string{"Decoder.Token returns an error at end of input and consumes input on every successful call"}, commonAssumptions...),
